@@ -296,6 +296,71 @@ pub fn law_c08_interval_inverse(a: IntervalYM, b: IntervalYM, c: IntervalDT, e: 
     }
 }
 
+// a date is the timestamp at its midnight: +interval / -interval / differences are mutually inverse
+pub fn law_c08_date_interval_dt_inverse(d: Date, i: IntervalDT)
+{
+    let r = d.add_interval_dt(i);
+    if let Ok(ts) = r {
+        let back = ts.sub_interval_dt(i);
+        assert(back.is_ok() && back.unwrap().v() == d.v() * US_DAY());
+        let diff = ts.sub_date(d);
+        assert(diff.v() == i.v());
+        let diff2 = d.sub_timestamp(ts);
+        assert(diff2.v() == -diff.v());
+    }
+    let s = d.sub_interval_dt(i);
+    let s2 = d.add_interval_dt(-i);
+    assert(s.is_ok() == s2.is_ok());
+    if s.is_ok() { assert(s.unwrap().v() == s2.unwrap().v()); }
+}
+
+pub fn law_c08_date_time_inverse(d: Date, t: Time)
+{
+    let ts = d.add_time(t);
+    let back = ts.sub_time(t);
+    assert(back.is_ok() && back.unwrap().v() == d.v() * US_DAY());
+    let diff = ts.sub_date(d);
+    assert(diff.v() == t.v());
+    let r = d.sub_time(t);
+    if let Ok(ts2) = r {
+        let fwd = ts2.add_time(t);
+        assert(fwd.is_ok() && fwd.unwrap().v() == d.v() * US_DAY());
+    }
+}
+
+// a-b = -(b-a), (a+b)-a = b for intervals of the same kind; both directions exist together
+// because the documented ranges are symmetric
+pub fn law_c08_interval_antisymmetry(a: IntervalYM, b: IntervalYM, c: IntervalDT, e: IntervalDT)
+{
+    let x = a.sub_interval_ym(b);
+    let y = b.sub_interval_ym(a);
+    assert(x.is_ok() == y.is_ok());
+    if x.is_ok() { assert(x.unwrap().v() == -y.unwrap().v()); }
+    let x2 = c.sub_interval_dt(e);
+    let y2 = e.sub_interval_dt(c);
+    assert(x2.is_ok() == y2.is_ok());
+    if x2.is_ok() { assert(x2.unwrap().v() == -y2.unwrap().v()); }
+    let s = a.add_interval_ym(b);
+    if let Ok(sum) = s {
+        let back = sum.sub_interval_ym(a);
+        assert(back.is_ok() && back.unwrap().v() == b.v());
+    }
+    let s2 = c.add_interval_dt(e);
+    if let Ok(sum2) = s2 {
+        let back2 = sum2.sub_interval_dt(c);
+        assert(back2.is_ok() && back2.unwrap().v() == e.v());
+    }
+}
+
+pub fn law_c08_timestamp_difference(a: Timestamp, b: Timestamp)
+{
+    let x = a.sub_timestamp(b);
+    let y = b.sub_timestamp(a);
+    assert(x.v() == -y.v());
+    let back = b.add_interval_dt(x);
+    assert(back.is_ok() && back.unwrap().v() == a.v());
+}
+
 // ---------------------------------------------------------------- C09
 pub fn law_c09_sub_is_add_negation(d: Date, ts: Timestamp, i: IntervalYM)
 {
@@ -347,6 +412,30 @@ pub fn law_c12_time_interval(t: Time, i: IntervalDT)
         vstd::arithmetic::div_mod::lemma_small_mod(t.v() as nat, US_DAY() as nat);
     }
     assert(back.v() == t.v());
+}
+
+// the difference of two times of day is antisymmetric and adding it back returns the minuend
+pub fn law_c12_sub_time(t1: Time, t2: Time)
+{
+    let a = t1.sub_time(t2);
+    let b = t2.sub_time(t1);
+    assert(a.v() == t1.v() - t2.v());
+    assert(a.v() == -b.v());
+    let c = t2.add_interval_dt(a);
+    proof { vstd::arithmetic::div_mod::lemma_small_mod(t1.v() as nat, US_DAY() as nat); }
+    assert(c.v() == t1.v());
+}
+
+// whole days never move a time of day; the interval's own time of day is what is added
+pub fn law_c12_whole_days_and_conversion(t: Time, i: IntervalDT)
+{
+    let ti = Time::from(i);
+    assert(ti.v() == abs(i.v()) % US_DAY());
+    let a = t.add_interval_dt(i);
+    assert(0 <= a.v() < US_DAY());
+    assert(a.v() == (t.v() + i.v()) % US_DAY());
+    let s = t.sub_interval_dt(i);
+    assert(s.v() == (t.v() - i.v()) % US_DAY());
 }
 
 // ---------------------------------------------------------------- C13
